@@ -147,13 +147,27 @@ func (x *Exec) isCallbackPrivate(c string) bool {
 						x.cbPrivate = append(x.cbPrivate, "f:"+lp.Path+"."+n)
 					} else {
 						x.cbPrivate = append(x.cbPrivate, "e:"+lp.Path+"."+n, "f:"+lp.Path+"."+n)
+						x.cbPrivateMap = append(x.cbPrivateMap, lp.Path+"."+n) // maps keyed by or holding the type
 					}
 				}
 			}
 		}
 		sort.Strings(x.cbPrivate)
 	}
-	return len(x.cbPrivate) > 0 && classMatches(c, x.cbPrivate)
+	if len(x.cbPrivate) > 0 && classMatches(c, x.cbPrivate) {
+		return true
+	}
+	if strings.HasPrefix(c, "m:") {
+		for _, n := range x.cbPrivateMap {
+			if i := strings.Index(c, n); i >= 0 {
+				rest := c[i+len(n):]
+				if rest == "" || !(rest[0] == '_' || rest[0] >= '0' && rest[0] <= '9' || rest[0] >= 'a' && rest[0] <= 'z' || rest[0] >= 'A' && rest[0] <= 'Z') {
+					return true
+				}
+			}
+		}
+	}
+	return false
 }
 
 // havocAllBut is havocAll for effects whose "everything" comes from calls to unknown code:
